@@ -8,7 +8,7 @@ LEVEL = 'model_checking'
 
 def plan(tier):
     units, info = wrgraph.wr_plan(tier)
-    units = units + wrgraph.scale_units(tier)[0] + wrgraph.thread_units() + \
+    units = units + wrgraph.scale_units(tier)[0] + wrgraph.thread_units() + wrgraph.live_units() + \
         wrgraph.small_text_units(tier)
     return {
         'units': units,
@@ -24,7 +24,10 @@ def plan(tier):
                 '6 pairs) under the controlled scheduler of mc/sched.py: every '
                 'interleaving of their stream writes / reads with <= 2 '
                 '(thorough 3) preemptions must give each thread the bytes '
-                'and records it gets alone. Non-trivial: >= 2 '
+                'and records it gets alone; plus two writers (then two '
+                'readers) alive in ONE thread, their calls merged in every '
+                'order (readers in the quick tier: <= 4 switches), 5 renderings of the same '
+                'calls, all 15 pairs. Non-trivial: >= 2 '
                 'containers and a non-default argument or non-UTF-8 effective '
                 'encoding.' % (
                     info['graph_states'], info['graph_closed'],
@@ -56,6 +59,9 @@ def run_unit(unit, tier):
     if unit[0] == 'threads':
         from mc.explore import Acc
         return wrgraph.run_thread_unit(unit, tier, Acc)
+    if unit[0] == 'live':
+        from mc.explore import Acc
+        return wrgraph.run_live_unit(unit, tier, Acc)
     if unit[0] == 'scale':
         from mc.explore import Acc
         return wrgraph.wr_run_scale_unit(unit, tier, oracle, Acc)
@@ -66,6 +72,9 @@ def replay(payload):
     if payload.get('kind') == 'threads':
         return [{'key': k, 'msg': m}
                 for k, m in wrgraph.replay_threads(payload)]
+    if payload.get('kind') == 'live':
+        return [{'key': k, 'msg': m}
+                for k, m in wrgraph.replay_live(payload)]
     if payload.get('kind') == 'scale':
         cfgs, variants = wrgraph.scale_units('quick')[1:]
         root, enc, le = variants[payload['variant']]
